@@ -176,6 +176,11 @@ func vrunSweepUnit(unit string) (res VerifUnitResult) {
 		return
 	}
 	for n := lo; n <= hi; n++ {
+		if kind == "nrec" && n == 0 && codec != 0 {
+			// a batch without records under a compression codec: the base cases judge it (the snappy form is a
+			// recorded finding with its own signature); the sweep is about sizes
+			continue
+		}
 		clause, msg := vsweepOne(kind, n, codec, &res.WireFacts)
 		res.Evaluations++
 		res.Nontrivial++
